@@ -10,7 +10,9 @@ RULE = ("random acyclic component graphs (2-14 nodes quick, up to 40 thorough) b
         "disabled and pre-seeded nodes, evaluated through every entry form of dr.run (explicit graph, single target, "
         "list, set, component type, group, sub-dictionary, run_incremental with fresh/shared broker); non-trivial = "
         ">= 3 nodes, >= 1 edge and >= 2 nodes without a path between them (a tie-break exists); distinct by hash of "
-        "the full case spec")
+        "the full case spec; plus, per shard, evaluations of the repository's OWN component graph (all shipped specs, parsers "
+        "and combiners, ~2 600 components) against synthetic archives filled from the parsers' docstring samples with "
+        "content faults, under the same value-free monitors")
 ASSUMPTIONS = [
     "None is not used as a value a component body returns; pre-seeded values may be None",
     "the order the engine chooses is varied by allocation perturbation and by the PYTHONHASHSEED sweep of C04, not enumerated",
@@ -34,10 +36,14 @@ PLAN = {
 
 
 def gen_case(rng, tier, idx):
+    if idx < (2 if tier == "quick" else 12):
+        return {"kind": "realgraph", "archive_seed": rng.getrandbits(30), "fault_rate": rng.choice([0.1, 0.3, 0.6])}
     return E.gen_engine_case(rng, tier)
 
 
 def nontrivial(spec):
+    if spec.get("kind") == "realgraph":
+        return True
     nodes = spec["graph"]["nodes"]
     n = len(nodes)
     if n < 3:
@@ -60,7 +66,26 @@ def nontrivial(spec):
     return False
 
 
+def run_realgraph(spec, ctx):
+    from vpmon import realgraph as R
+    root, treat = R.make_archive(spec["archive_seed"], spec["fault_rate"])
+    try:
+        for mode in ("serial", "incremental"):
+            events, brokers, raised, g = R.evaluate(root, mode)
+            for mech, wit in R.engine_monitors(events, brokers[0], g, raised):
+                ctx.violation(mech, dict(wit, workload="the repository's own component graph", mode=mode))
+            ctx.count("real_graph_evaluations")
+            ctx.count("real_graph_components", len(g))
+            ctx.count("process_events", sum(1 for e in events if e[2] == "process"))
+            ctx.count("attempt_events", sum(1 for e in events if e[2] == "attempt"))
+            ctx.count("real_graph_exceptions_recorded", sum(len(v) for v in brokers[0].exceptions.values()))
+    finally:
+        R.cleanup(root)
+
+
 def run_case(spec, ctx):
+    if spec.get("kind") == "realgraph":
+        return run_realgraph(spec, ctx)
     r = E.execute(spec)
     try:
         runs = [r]
